@@ -21,6 +21,9 @@ structure RCfg where
   dbMap : List (Int × Int) := []
   /-- `time.Now()` in milliseconds when the replay of an entry starts -/
   now : Nat := 0
+  /-- `ReplaceHashTag`: the entry is replayed to its key with the first `{` and the
+      first `}` removed -/
+  replaceHashTag : Bool := false
   /-- (harness clock) milliseconds that pass per request on a connection: the
       clock a worker reads for its next entry is `now + tick * requests so far` -/
   tick : Nat := 0
@@ -64,17 +67,34 @@ def typeLoadable (major : Nat) (t : UInt8) : Bool :=
   else if major ≥ 5 then t.toNat ≤ 15
   else t.toNat ≤ 14
 
+/-- `bytes.Replace(key, "{", "", 1)` then `bytes.Replace(…, "}", "", 1)` -/
+def removeFirst (c : UInt8) : Bytes → Bytes
+  | [] => []
+  | b :: r => if b = c then r else b :: removeFirst c r
+
+def dstKey (cfg : RCfg) (k : Bytes) : Bytes :=
+  if cfg.replaceHashTag then removeFirst 125 (removeFirst 123 k) else k
+
+/-- `rewriteKeyArgs`: the key argument of an expanded command (position 1 for
+    XGROUP <sub> key …, position 0 otherwise) that carries the snapshot's key is
+    replaced by the key the entry is replayed to -/
+def rewriteCmd (src dst : Bytes) (c : Cmd) : Cmd :=
+  if src = [] ∨ src = dst then c else
+  let idx := if lower c.name = b!"xgroup" then 1 else 0
+  if c.args[idx]? = some (Arg.b src) then { c with args := c.args.set idx (Arg.b dst) } else c
+
 /-- the expansion path of `Replay` (restore off, payload too large, split value,
     or — repaired — the fall-back after `Bad data format`): probe + DEL for a
     first chunk, the expanded commands, PEXPIRE when the key has an expiry -/
-def expandEntry (cfg : RCfg) (db : Int) (ex : Exists) (e : Entry) (ot : OType) : List Cmd × Exists × Bool :=
+def expandEntry (cfg : RCfg) (db : Int) (ex : Exists) (e : Entry) (ot : OType) (src : Bytes := e.key) :
+    List Cmd × Exists × Bool :=
   let ttl := ttlOf cfg.now e.expireAt
   if ot = .module then ([], ex, false) else
   let probe : List Cmd :=
     if e.obj.firstBin then
       cmdB b!"exists" [e.key] :: (if ex.has db e.key then [cmdB b!"del" [e.key]] else [])
     else []
-  match execCmd cfg.x e.obj with
+  match (execCmd cfg.x e.obj).map (fun cs => cs.map (rewriteCmd src e.key)) with
   | none => (probe, ex, false)
   | some cs =>
     let expire := if e.expireAt ≠ 0 then [cmdB b!"pexpire" [e.key, natToDec ttl]] else []
@@ -86,7 +106,9 @@ def expandEntry (cfg : RCfg) (db : Int) (ex : Exists) (e : Entry) (ot : OType) :
 
 /-- `RdbReplay.Replay` (policy `replace`): requests issued on the connection
     (current DB `db`), the new existence table, success -/
-def replayEntry (cfg : RCfg) (db : Int) (ex : Exists) (e : Entry) : List Cmd × Exists × Bool :=
+def replayEntry (cfg : RCfg) (db : Int) (ex : Exists) (e0 : Entry) : List Cmd × Exists × Bool :=
+  let src := e0.key
+  let e : Entry := { e0 with key := dstKey cfg e0.key }
   let ttl := ttlOf cfg.now e.expireAt
   match otypeOf e.obj.rtype with
   | none => ([], ex, false)
@@ -98,7 +120,7 @@ def replayEntry (cfg : RCfg) (db : Int) (ex : Exists) (e : Entry) : List Cmd × 
     else
       let restoreCmd := cfg.enableRestore &&
         !(decide (e.obj.valueDumpSize > cfg.maxBulk) || e.obj.isSplited)
-      if !restoreCmd then expandEntry cfg db ex e ot
+      if !restoreCmd then expandEntry cfg db ex e ot src
       else
         let params := [e.key, natToDec ttl, e.obj.dump] ++
           (if cfg.x.tgtMajor ≥ 5 then
@@ -113,7 +135,7 @@ def replayEntry (cfg : RCfg) (db : Int) (ex : Exists) (e : Entry) : List Cmd × 
         else
           -- the target answers "Bad data format": the value is expanded instead, through
           -- the same probe / DEL / PEXPIRE path as without RESTORE (repaired)
-          let (cs, ex', ok) := expandEntry cfg db ex e ot
+          let (cs, ex', ok) := expandEntry cfg db ex e ot src
           (attempts ++ cs, ex', ok)
 
 /-- one worker connection -/
